@@ -41,9 +41,11 @@ class C05(CheckBase):
         surfaces = []
         for side in range(fc['sides']):
             variant = rng.choice(['acorn', 'watford', 'acorn'] + (['opus'] if fc['spt'] == 18 else []))
+            if fc['spt'] == 18 and side == 1 and rng.chance(0.5):
+                variant = 'opus'      # an Opus DDOS file system cross-checks the geometry of the side it is on
             s = dd.gen_surface(rng, variant=variant, geom=(fc['tracks'], fc['spt']), img_id=2, side=side)
             surfaces.append(s.to_json())
-        return {'flux': fc, 'surfaces': surfaces, 'spot': rng.below(6) == 0, 'spot_cmd': rng.choice(['cat', 'info', 'type'])}
+        return {'flux': fc, 'surfaces': surfaces, 'spot': rng.below(6) == 0, 'spot_cmd': rng.choice(['cat', 'info', 'type']), 'spot_side': rng.below(2)}
 
     def run_case(self, case, ctx):
         out = Outcome()
@@ -97,6 +99,23 @@ class C05(CheckBase):
                     out.violate('C05.c', '%s: side %d: %d of %d sectors missing, %d differ from the sector dump (first at track %d sector %d)'
                                 % (what, di, len(missing), n, len(wrong), first // fc['spt'], first % fc['spt']),
                                 dict(desc, what='sectors-missing' if missing else 'sectors-differ'), case)
+                if d['format'] is not None:
+                    # "every command gives the same catalogue": the file system on that side must mount
+                    for v in surfs[di].volumes:
+                        m = e2.mount(d['n'], v.label)
+                        out.steps += 1
+                        if not m['ok']:
+                            verdict = 'mount-failed'
+                            out.violate('C05.e', '%s: side %d%s: the sectors equal the sector dump but the file system cannot be mounted: %s' % (
+                                what, di, (' volume ' + v.label) if v.label else '', m['error'][:160]), dict(desc, what='mount'), case)
+                            break
+                        names = sorted((e['dir'], e['name']) for e in m['entries'])
+                        want_names = sorted((f.dir, f.name.decode('latin-1').split(' ')[0]) for f in v.files)
+                        if names != want_names:
+                            verdict = 'catalogue-differs'
+                            out.violate('C05.e', '%s: side %d: mounted catalogue lists %d entries, the disc has %d' % (what, di, len(names), len(want_names)),
+                                        dict(desc, what='catalogue'), case)
+                            break
                 if d['format'] is None:
                     out.violate('C05.c', '%s: side %d has no recognisable file system though its sectors are those of a valid disc' % (what, di), dict(desc, what='no-format'), case)
         out.steps += e2.ops - ops_before
@@ -110,27 +129,37 @@ class C05(CheckBase):
         sb = ctx.sb
         ext = 'ssd' if fc['enc'] == 'fm' else 'sdd'
         fname = 'f.mfm' if fc['container'] == 'mfm' else 'f.hfe'
-        s = surfs[0]
+        side = case.get('spot_side', 0) % len(surfs)
+        s = surfs[side]
+        drive = 0 if side == 0 else 2
         if not dd.geometry_is_identifiable(s, ext):
             out.skip('spot-geometry-not-identifiable-for-sector-dump')
             return
-        sb.reset({fname: data, 'd.' + ext: rendered[0]})
+        sb.reset({fname: data, 'd.' + ext: rendered[side]})
         cmdk = case['spot_cmd']
         files = [(v, f) for v, f in s.all_files() if dfswork.safe_for_cmdline(f)]
         if cmdk == 'type' and files:
             v, f = files[0]
             cmd = ['type', '--binary', dfswork.fsp(v, f, 0)]
+            cmd_flux = ['type', '--binary', dfswork.fsp(v, f, drive)]
         elif cmdk == 'info':
             cmd = ['info', ':0%s.*.*' % (s.volumes[0].label or '')]
+            cmd_flux = ['info', ':%d%s.*.*' % (drive, s.volumes[0].label or '')]
         else:
-            cmd = ['cat']
+            cmd = ['show-titles', '0']
+            cmd_flux = ['show-titles', str(drive)]
+        if cmdk == 'type' and not files:
+            cmd_flux = ['show-titles', str(drive)]
+            cmd = ['show-titles', '0']
         exe = ctx.exe('rel', 'dfs')
         a = ctx.sk.run(sb, exe, ['dfs', '--file', 'd.' + ext] + cmd)
-        b = ctx.sk.run(sb, exe, ['dfs', '--file', fname] + cmd)
+        b = ctx.sk.run(sb, exe, ['dfs', '--file', fname] + cmd_flux)
         out.add_run(a, ref=True)
         out.add_run(b)
         out.probe('e1-spot-checks')
-        if a.exit_class() != b.exit_class() or a['stdout'] != b['stdout']:
+        import re
+        norm = (lambda o: re.sub(b'(?m)^%d' % drive, b'0', o)) if cmd[0] == 'show-titles' else (lambda o: o)
+        if a.exit_class() != b.exit_class() or a['stdout'] != norm(b['stdout']):
             out.violate('C05.d', '%s: dfs %s gives %s on the flux image and %s on the sector dump; stdout %s' % (
                 what, ' '.join(cmd), b.exit_class(), a.exit_class(), 'identical' if a['stdout'] == b['stdout'] else 'differs'),
                 dict(desc, what='spot'), case)
